@@ -228,6 +228,81 @@ def rewriteRegion (P : Params IR) (fuel : Nat) (d : D IR) : Option (D IR × Bool
     if !P.recursive then some (d1, d1.st.changed)
     else (outer P fuel fuel d1).map fun d2 => (d2, d1.st.changed)
 
+/-! ## Histories: several `rewrite_region` / `rewrite_module` calls on ONE walker
+
+`PatternRewriteWalker._get_rewriter_listener` is evaluated at the beginning of every call: the listener
+handed to the rewriter holds copies of the handler lists of `walker.listener` *as they are at that moment*
+(plus the walker's own worklist handlers).  Between two calls the user may append handlers to
+`walker.listener` or assign a new listener object; the worklist object is the same for all calls.
+Handler sets are naturals. -/
+
+/-- What the user does to `walker.listener` between two calls. -/
+inductive Edit
+  /-- a handler is appended to every handler list of the current `walker.listener` -/
+  | add (h : Nat)
+  /-- `walker.listener = PatternRewriterListener(…)` holding the handlers `hs` -/
+  | replace (hs : List Nat)
+deriving Repr, DecidableEq
+
+structure Walker where
+  /-- `walker._worklist`: one object for the whole life of the walker -/
+  wl : WL := {}
+  /-- handlers held by `walker.listener`, in list order -/
+  registered : List Nat := []
+  /-- ghost: (handler, event) in delivery order, over all calls -/
+  delivered : List (Nat × Event) := []
+deriving Repr
+
+/-- every event goes to every handler of the combined listener, in list order -/
+def deliver (hs : List Nat) (log : List Event) : List (Nat × Event) :=
+  log.flatMap fun e => hs.map fun h => (h, e)
+
+def Walker.edit (w : Walker) : Edit → Walker
+  | .add h => { w with registered := w.registered ++ [h] }
+  | .replace hs => { w with registered := hs }
+
+/-- One call of `rewrite_region` on the region whose ops are `attached`: the combined listener is
+built from `w.registered` now; the walker's worklist is used as it was left by the previous call. -/
+def call {IR : Type} (P : Params IR) (fuel : Nat) (w : Walker) (ir : IR) (attached : List Nat) :
+    Option (Walker × D IR × Bool) :=
+  match rewriteRegion P fuel { ir := ir, st := { attached := attached, wl := w.wl } } with
+  | none => none
+  | some (d, b) =>
+    some ({ w with wl := d.st.wl, delivered := w.delivered ++ deliver w.registered d.st.log }, d, b)
+
+/-- One step of a history: listener edits, then whatever the user does to the IR between two calls
+together with the choice of the region handed to the next call (`prep` returns the IR and the ops
+attached under that region). -/
+structure Stage (IR : Type) where
+  edits : List Edit
+  prep : IR → IR × List Nat
+
+/-- ghost record of one call -/
+structure CallRec where
+  registered : List Nat
+  executed : List Action
+  log : List Event
+  ret : Bool
+deriving Repr
+
+def history {IR : Type} (P : Params IR) (fuel : Nat) :
+    Walker → IR → List (Stage IR) → Option (Walker × IR × List CallRec)
+  | w, ir, [] => some (w, ir, [])
+  | w, ir, s :: rest =>
+    let w1 := s.edits.foldl Walker.edit w
+    let p := s.prep ir
+    match call P fuel w1 p.1 p.2 with
+    | none => none
+    | some (w2, d, b) =>
+      match history P fuel w2 d.ir rest with
+      | none => none
+      | some (w3, ir3, recs) =>
+        some (w3, ir3, { registered := w1.registered, executed := d.st.executed, log := d.st.log,
+                         ret := b } :: recs)
+
+/-- what handler `h` has received -/
+def view (h : Nat) (l : List (Nat × Event)) : List Event := (l.filter fun p => p.1 == h).map (·.2)
+
 /-! ## Script-driven instance and line protocol
 
 The check records, for every pattern invocation of the real walker, the calls made on the real
@@ -250,6 +325,8 @@ structure Script where
   /-- perturbed schedule: the element popped at invocation `n` -/
   picks : Option (Array Nat) := none
   cur : Option Entry := none     -- entry being read
+  /-- the walker across the calls of a history (`next` keeps it, `reset` starts a new walker) -/
+  walker : Walker := {}
 deriving Repr
 
 /-- The script position: invocations made so far, post-walk calls made so far. -/
@@ -317,16 +394,22 @@ def showItem : TraceItem → String
   | .post ch wl evs attached =>
     s!"P {showBool ch} | {showNats wl} | {showEvents evs} | {showNats (sortNats attached)}"
 
-/-- Run the closed driver `rewriteRegion` on the recorded script and print its trace. -/
-def runScript (sc : Script) (fuel : Nat) : String :=
+/-- Run one call (`call`, i.e. the closed driver `rewriteRegion` on the walker's worklist) on the recorded
+script and print its trace, followed — when handlers are registered — by what each registered handler
+received during this call.  Returns the walker after the call. -/
+def runScript (sc : Script) (fuel : Nat) : Walker × String :=
   let P := scriptParams sc
-  match rewriteRegion P fuel { ir := {}, st := { attached := sc.init } } with
-  | none => "out-of-fuel"
-  | some (d, ret) =>
-    " ; ".intercalate (d.st.trace.map showItem ++ [s!"R {showBool ret} used {d.ir.n} of {sc.entries.size}"])
+  let w0 := { sc.walker with delivered := [] }
+  match call P fuel w0 {} sc.init with
+  | none => (sc.walker, "out-of-fuel")
+  | some (w, d, ret) =>
+    (w, " ; ".intercalate (d.st.trace.map showItem
+      ++ [s!"R {showBool ret} used {d.ir.n} of {sc.entries.size}"]
+      ++ w0.registered.map fun h => s!"L {h}: {showEvents (view h w.delivered)}"))
 
 /-- Protocol:
-* `reset <rec 0|1> <post 0|1>`; `init <ids>`; `sweep <n> <ids>`; `entry <op>`; `act <action>`;
+* `reset <rec 0|1> <post 0|1>` (new walker) / `next <rec 0|1> <post 0|1>` (next call on the same walker:
+  worklist and registered handlers are kept); `listener add <h>` / `listener replace <hs>`; `init <ids>`; `sweep <n> <ids>`; `entry <op>`; `act <action>`;
   `postwalk <n> <ret 0|1>` followed by `pact <action>` lines; `picks <ids>`; `run <fuel>`. -/
 def lineStep (sc : Script) (line : String) : Script × String :=
   let flush (sc : Script) : Script :=
@@ -335,6 +418,15 @@ def lineStep (sc : Script) (line : String) : Script × String :=
     | none => sc
   match words line with
   | ["reset", r, p] => ({ recursive := r = "1", hasPost := p = "1" }, "ok")
+  | ["next", r, p] => ({ recursive := r = "1", hasPost := p = "1", walker := sc.walker }, "ok")
+  | ["listener", "add", h] =>
+    (match h.toNat? with
+     | some h => ({ sc with walker := sc.walker.edit (.add h) }, "ok")
+     | none => (sc, "bad-op"))
+  | "listener" :: "replace" :: ws =>
+    (match natsOf ws with
+     | some hs => ({ sc with walker := sc.walker.edit (.replace hs) }, "ok")
+     | none => (sc, "bad-op"))
   | "init" :: ws =>
     (match natsOf ws with
      | some l => ({ sc with init := l }, "ok")
@@ -365,7 +457,7 @@ def lineStep (sc : Script) (line : String) : Script × String :=
      | none => (sc, "bad-op"))
   | ["run", fuel] =>
     (match fuel.toNat? with
-     | some f => let sc := flush sc; (sc, runScript sc f)
+     | some f => let sc := flush sc; let (w, out) := runScript sc f; ({ sc with walker := w }, out)
      | none => (sc, "bad-op"))
   | _ => (sc, "bad-op")
 
